@@ -18,12 +18,17 @@ POOL = {
     'volt': (None, {-2: 1, -1: 2, -3: -3, -4: -1}),
     'mV': ('volt * 0.001', {2: -3, 5: -3, -2: 1, -1: 2, -3: -3, -4: -1}),
     'uV': ('volt * 1e-6', {2: -6, 5: -6, -2: 1, -1: 2, -3: -3, -4: -1}),
+    # three spellings of ONE unit whose floating-point scale ratios are 1 +- one ulp (0.9999999999999999, 1.0000000000000002):
+    # converting between them must be recognised as "nothing to do"
+    'nV': ('volt * 1e-9', {2: -9, 5: -9, -2: 1, -1: 2, -3: -3, -4: -1}),
+    'nV_b': ('volt / 1e9', {2: -9, 5: -9, -2: 1, -1: 2, -3: -3, -4: -1}),
+    'nV_c': ('uV * 0.001', {2: -9, 5: -9, -2: 1, -1: 2, -3: -3, -4: -1}),
     'dimensionless': (None, {}),
     'pc': ('dimensionless * 0.01', {2: -2, 5: -2}),
     'metre': (None, {-1: 1}),
     'cm': ('metre * 0.01', {2: -2, 5: -2, -1: 1}),
 }
-FAMILIES = [['second', 'ms', 'minute'], ['volt', 'mV', 'uV'], ['dimensionless', 'pc'], ['metre', 'cm']]
+FAMILIES = [['second', 'ms', 'minute'], ['volt', 'mV', 'uV', 'nV', 'nV_b', 'nV_c'], ['dimensionless', 'pc'], ['metre', 'cm']]
 TIME_UNITS = ['second', 'ms', 'minute']
 GEN_NAMES = {-1: 'meter', -2: 'kilogram', -3: 'second', -4: 'ampere', -5: 'kelvin', -6: 'mole', -7: 'candela', -8: 'radian'}
 NAME_GENS = {v: k for k, v in GEN_NAMES.items()}
